@@ -35,6 +35,13 @@ class _ShimDatetimeClass(real_datetime.datetime):
     def utcnow(cls):
         return EPOCH + real_datetime.timedelta(seconds=cls._clock.seconds())
 
+    @classmethod
+    def now(cls, tz=None):
+        # the harness owns the wall clock too: local time is UTC+9 here (Tor's EXPIRES= values are UTC)
+        if tz is None:
+            return cls.utcnow() + real_datetime.timedelta(hours=9)
+        return (cls.utcnow().replace(tzinfo=real_datetime.timezone.utc)).astimezone(tz)
+
 
 class _ShimModule(object):
     datetime = _ShimDatetimeClass
